@@ -60,6 +60,7 @@ static void uniform_run(uint32_t ub, const uint32_t *draws, int nd, uint32_t min
     memcpy(draw_script, draws, sizeof(uint32_t) * (size_t) nd); draw_n = nd; draw_pos = 0; draw_over = 0; calls_random = 0; calls_buf = 0;
     r = randombytes_uniform(ub);
     n_eval++; n_nontriv++; n_scripts++;
+    if (nd == 3 && (ub == 10 || ub == 0xffffffffu)) VF_SAMPLE_CASE(4, "randombytes_uniform(%u) with scripted draws (%u, %u, %u), rejection threshold 2^32 mod n = %u -> returned %u after %d draws", ub, draws[0], draws[1], draws[2], min, r, draw_pos);
     want = draws[first] % ub;
     if (r != want || draw_pos != first + 1 || draw_over || r >= ub || calls_buf != 0) {
         snprintf(key, sizeof key, "randombytes_uniform/ub=%u/script=%u,%u,%u,%u/n=%d", ub, draws[0], nd > 1 ? draws[1] : 0, nd > 2 ? draws[2] : 0, nd > 3 ? draws[3] : 0, nd);
